@@ -119,6 +119,24 @@ Theorem C11_crash_leftover_refuted :
 Proof. exact crash_leftover_refuted. Qed.
 Print Assumptions C11_crash_leftover_refuted.
 
+(** Known finding L0IdReusedAfterCompactionAndRestart: after compaction has merged
+    the level-0 segments away, crash + restart seeds the level-0 allocator from the
+    remaining directory names and the name 0 is published again with other rows. *)
+Theorem C11_l0_reuse_after_restart_refuted :
+  exists c k l1 l2 l3 i,
+    let s1 := crun (init c) l1 in
+    let s2 := crun (init c) (l1 ++ l2) in
+    let s3 := crun (init c) (l1 ++ l2 ++ l3) in
+    hist_ok (init c) (l1 ++ l2) = true /\ policy_ok k (init c) (l1 ++ l2) = true /\
+    l3 = [CBase LCrash; CBase LRestart] ++ seg1 2 /\
+    hist_ok (crun (init c) (l1 ++ l2 ++ [CBase LCrash; CBase LRestart])) (seg1 2) = true /\
+    In i (live s1) /\ rows_of (dirs s1) i = [mkEv 0 0 0] /\
+    ~ In i (live s2) /\ ~ has_dir (dirs s2) i /\ alloc0 s2 = 2 /\
+    alloc0 (crun (init c) (l1 ++ l2 ++ [CBase LCrash; CBase LRestart])) = 0 /\
+    In i (live s3) /\ In i (index_labels (index s3)) /\ rows_of (dirs s3) i = [mkEv 2 0 0].
+Proof. exact l0_reuse_after_restart_refuted. Qed.
+Print Assumptions C11_l0_reuse_after_restart_refuted.
+
 (** The guard of [CReclaim] is needed in the model (interleaving of a batch with a
     flush job between [FwIndex] and [FwPublish]; not observed on the engine). *)
 Theorem C11_reclaim_guard_needed :
